@@ -1,4 +1,4 @@
-use proc_macro2::{Ident, TokenStream};
+use proc_macro2::{Ident, Span, TokenStream};
 use quote::quote;
 use syn::{punctuated::Punctuated, Data, DeriveInput, Fields, LitStr, Token};
 
@@ -16,6 +16,11 @@ pub fn display_inner(ast: &DeriveInput) -> syn::Result<TokenStream> {
 
     let type_properties = ast.get_type_properties()?;
 
+    // The formatter argument of the generated `fmt`. Its span is hygienic (like a local in a
+    // `macro_rules!` body) so that a field named `f`, which the match arms below bind by name,
+    // cannot shadow it.
+    let f = &Ident::new("f", Span::mixed_site());
+
     let mut arms = Vec::new();
     for variant in variants {
         let ident = &variant.ident;
@@ -27,7 +32,7 @@ pub fn display_inner(ast: &DeriveInput) -> syn::Result<TokenStream> {
 
         if let Some(..) = variant_properties.transparent {
             let arm = super::extract_single_field_variant_and_then(name, variant, |tok| {
-                quote! { ::core::fmt::Display::fmt(#tok, f) }
+                quote! { ::core::fmt::Display::fmt(#tok, #f) }
             })
             .map_err(|_| non_single_field_variant_error("transparent"))?;
 
@@ -73,7 +78,7 @@ pub fn display_inner(ast: &DeriveInput) -> syn::Result<TokenStream> {
 
         if variant_properties.to_string.is_none() && variant_properties.default.is_some() {
             let arm = super::extract_single_field_variant_and_then(name, variant, |tok| {
-                quote! { ::core::fmt::Display::fmt(#tok, f)}
+                quote! { ::core::fmt::Display::fmt(#tok, #f)}
             })
             .map_err(|_| {
                 syn::Error::new_spanned(
@@ -90,7 +95,7 @@ pub fn display_inner(ast: &DeriveInput) -> syn::Result<TokenStream> {
             Fields::Named(ref field_names) => {
                 let used_vars = capture_format_string_idents(&output)?;
                 if used_vars.is_empty() {
-                    quote! { #name::#ident #params => ::core::fmt::Display::fmt(#output, f) }
+                    quote! { #name::#ident #params => ::core::fmt::Display::fmt(#output, #f) }
                 } else {
                     // Create args like 'name = name, age = age' for format macro
                     let args: Punctuated<_, Token!(,)> = field_names
@@ -109,7 +114,7 @@ pub fn display_inner(ast: &DeriveInput) -> syn::Result<TokenStream> {
 
                     quote! {
                         #[allow(unused_variables)]
-                        #name::#ident #params => ::core::fmt::Display::fmt(&format_args!(#output, #args), f)
+                        #name::#ident #params => ::core::fmt::Display::fmt(&format_args!(#output, #args), #f)
                     }
                 }
             }
@@ -122,7 +127,7 @@ pub fn display_inner(ast: &DeriveInput) -> syn::Result<TokenStream> {
                     ));
                 }
                 if used_vars.is_empty() {
-                    quote! { #name::#ident #params => ::core::fmt::Display::fmt(#output, f) }
+                    quote! { #name::#ident #params => ::core::fmt::Display::fmt(#output, #f) }
                 } else {
                     let args: Punctuated<_, Token!(,)> = unnamed_fields
                         .unnamed
@@ -135,7 +140,7 @@ pub fn display_inner(ast: &DeriveInput) -> syn::Result<TokenStream> {
                         .collect();
                     quote! {
                         #[allow(unused_variables)]
-                        #name::#ident #params => ::core::fmt::Display::fmt(&format_args!(#output, #args), f)
+                        #name::#ident #params => ::core::fmt::Display::fmt(&format_args!(#output, #args), #f)
                     }
                 }
             }
@@ -148,7 +153,7 @@ pub fn display_inner(ast: &DeriveInput) -> syn::Result<TokenStream> {
                     ));
                 }
 
-                quote! { #name::#ident #params => ::core::fmt::Display::fmt(#output, f) }
+                quote! { #name::#ident #params => ::core::fmt::Display::fmt(#output, #f) }
             }
         };
 
@@ -161,7 +166,7 @@ pub fn display_inner(ast: &DeriveInput) -> syn::Result<TokenStream> {
 
     Ok(quote! {
         impl #impl_generics ::core::fmt::Display for #name #ty_generics #where_clause {
-            fn fmt(&self, f: &mut ::core::fmt::Formatter) -> ::core::result::Result<(), ::core::fmt::Error> {
+            fn fmt(&self, #f: &mut ::core::fmt::Formatter) -> ::core::result::Result<(), ::core::fmt::Error> {
                 match *self {
                     #(#arms),*
                 }
